@@ -437,6 +437,8 @@ def _len(I, self, args, kw, fr, site):
                 return call_value(I, VFunc(m["v"], v), [], {}, fr, site)
             if I.E.contract_of(o.cls + ".__len__"):
                 return call_value(I, VFunc(o.cls + ".__len__", v), [], {}, fr, site)
+    if isinstance(v, VOpaque) and v.tag == "Filtered":
+        return VInt(filtered_info(I, v)[0])
     if isinstance(v, VOpaque) and I.E.contract_of(v.tag + ".__len__"):
         return call_value(I, VFunc(v.tag + ".__len__", v), [], {}, fr, site)
     if isinstance(v, VExc):
@@ -709,10 +711,69 @@ def _setattr(I, self, args, kw, fr, site):
 
 @intrinsic("builtins.list", "builtins.tuple")
 def _list(I, self, args, kw, fr, site):
+    if args and isinstance(args[0], VOpaque) and (args[0].tag == "Filtered" or args[0].tag in getattr(I.E, "opaque_iter", {})):
+        return args[0]          # abstract sequences stay abstract (list() of them is the same sequence of elements)
     items = I.iter_concrete(args[0]) if args else []
     r = I.st.alloc("list", "list")
     I.st.heap[r.ref].data = items
     return r
+
+
+# ---- filter(pred, xs) over an abstract sequence: only what the code can observe of the result is defined - whether it
+# is empty, and its first element (the first element of xs satisfying pred); both are consequences of filter's definition
+@intrinsic("builtins.filter")
+def _filter(I, self, args, kw, fr, site):
+    pred, xs = args
+    if isinstance(xs, VOpaque) and (xs.tag in getattr(I.E, "opaque_iter", {}) or xs.tag == "Filtered"):
+        st = I.st
+        r = VOpaque("Filtered", st.fresh_int("filtered_id"))
+        st.__dict__.setdefault("filtered", {})[str(r.t)] = dict(pred=pred, xs=xs, fr=fr, site=site)
+        I.E.trusted_used.add("filter(pred, xs): empty iff no element satisfies pred; first element = first of xs satisfying pred")
+        return r
+    items = I.iter_concrete(xs)
+    out = []
+    for x in items:
+        if I.st.decide(I.truthy(call_value(I, pred, [x], {}, fr, site))):
+            out.append(x)
+    r = I.st.alloc("list", "list")
+    I.st.heap[r.ref].data = out
+    return r
+
+
+def filtered_info(I, r):
+    """(n, i0, elem_at) of a Filtered value, with the defining facts assumed once"""
+    from . import loops
+    st = I.st
+    d = st.filtered[str(r.t)]
+    if "n" in d:
+        return d["n"], d["i0"], d["elem_at"]
+    xs, pred, fr, site = d["xs"], d["pred"], d["fr"], d["site"]
+    if xs.tag == "Filtered":
+        raise Unsupported("filter over a filtered sequence")
+    elem_at, L = loops.symbolic_iter(I, xs, fr)
+    n, i0 = st.fresh_int("filtered_len"), st.fresh_int("filtered_first")
+    j = z3.Int(st.fresh_name("q_fj"))
+
+    def P(idx):
+        n0 = len(st.pc)
+        t = zbool(I.truthy(call_value(I, pred, [elem_at(idx)], {}, fr, site)))
+        del st.pc[n0:]
+        return t
+    L = zint(L)
+    st.assume(n >= 0)
+    st.assume((n == 0) == z3.ForAll([j], z3.Implies(z3.And(0 <= j, j < L), z3.Not(P(j)))))
+    st.assume(z3.Implies(n > 0, z3.And(0 <= i0, i0 < L, P(i0),
+                                        z3.ForAll([j], z3.Implies(z3.And(0 <= j, j < i0), z3.Not(P(j)))))))
+    d.update(n=n, i0=i0, elem_at=elem_at)
+    return n, i0, elem_at
+
+
+@intrinsic("Filtered.__contains__")
+def _filtered_contains(I, self, args, kw, fr, site):
+    d = I.st.filtered[str(self.t)]
+    a = zbool(I.truthy(call_value(I, VFunc(d["xs"].tag + ".__contains__", d["xs"]), [args[0]], {}, fr, site)))
+    b = zbool(I.truthy(call_value(I, d["pred"], [args[0]], {}, fr, site)))
+    return VBool(simp(z3.And(a, b)))
 
 
 @intrinsic("builtins.set")
@@ -1141,6 +1202,9 @@ def _l_insert(I, self, args, kw, fr, site):
     i = _int(args[0], I)
     if o.kind == "list" and is_conc(i):
         o.data.insert(i, args[1])
+        return NONE
+    if o.kind == "slist" and is_conc(i) and i == 0 and isinstance(args[1], (VInt, VBool)):
+        o.data = ropes.concat(VSeq([Seg("U", zint(_int(args[1], I)))], "list"), o.data)
         return NONE
     raise Unsupported("list.insert symbolic")
 
